@@ -20,3 +20,20 @@ pose proof (is_RInt_Chasles _ _ _ _ _ _ A B) as C.
 replace t with (plus (scal (t - 0) 1) (scal (1 - t) 0)) at 2; [exact C|].
 unfold plus, scal; simpl; unfold mult; simpl; lra.
 Qed.
+
+(* the number of copies as a function of the uniform draw u: floor r, plus one when u < frac r *)
+Definition repeatsR (r u : R) : R := IZR (Int_part r) + extra (frac_part r) u.
+
+(* expectation over u ~ U[0,1) is exactly r *)
+Theorem expectation_repeats r : is_RInt (repeatsR r) 0 1 r.
+Proof.
+  destruct (base_fp r) as [F0 F1].
+  assert (A : is_RInt (fun _ : R => IZR (Int_part r)) 0 1 (scal (1 - 0) (IZR (Int_part r)))) by apply @is_RInt_const.
+  assert (B : is_RInt (extra (frac_part r)) 0 1 (frac_part r)) by (apply extra_int; lra).
+  pose proof (is_RInt_plus _ _ _ _ _ _ A B) as C.
+  replace r with (plus (scal (1 - 0) (IZR (Int_part r))) (frac_part r)) at 2; [exact C|].
+  unfold plus, scal; simpl; unfold mult; simpl. unfold frac_part. lra.
+Qed.
+(* and the value is always floor r or floor r + 1 *)
+Theorem repeatsR_values r u : repeatsR r u = IZR (Int_part r) \/ repeatsR r u = IZR (Int_part r) + 1.
+Proof. unfold repeatsR, extra. destruct (Rlt_dec u (frac_part r)); [right|left]; lra. Qed.
